@@ -167,7 +167,8 @@ Proof.
   - destruct (load_stream bs off) as [[ops e]|x] eqn:E; [|discriminate]. inversion H; subst. cbn [l_ops].
     destruct (reparse_exact _ _ _ _ E) as (d & p0 & D & _ & L & EO & D0).
     exists d, (mkLoaded p0 (List.length d) None), off. unfold load_model. rewrite L. cbn [l_ops l_end]. auto.
-  - destruct (load_stream (skipn off bs) 0) as [[ops e]|x] eqn:E; [|discriminate]. inversion H; subst.
+  - rewrite load_stream_rec_eq in H.
+    destruct (load_stream (skipn off bs) 0) as [[ops e]|x] eqn:E; [|discriminate]. inversion H; subst.
     cbn [l_ops].
     destruct (reparse_exact _ _ _ _ E) as (d & p0 & D & _ & L & EO & D0).
     exists d, (mkLoaded p0 (List.length d) None), 0. unfold load_model. rewrite L. cbn [l_ops l_end]. auto.
